@@ -4,7 +4,8 @@ apply the patch there, run the property's quick check against the copy (VERIF_RE
 Never touches /repo. Runs 8 seeds at a time."""
 import concurrent.futures, json, os, shutil, subprocess, sys, re
 VERIF = os.path.dirname(os.path.dirname(os.path.abspath(__file__)))
-names = sys.argv[1:] or sorted(os.listdir(os.path.join(VERIF, "seeded")))
+WRITE = "--write" in sys.argv
+names = [a for a in sys.argv[1:] if a != "--write"] or sorted(os.listdir(os.path.join(VERIF, "seeded")))
 def sh(cmd, cwd=None, env=None):
     r = subprocess.run(cmd, shell=True, cwd=cwd, env=env, stdout=subprocess.PIPE, stderr=subprocess.STDOUT, universal_newlines=True)
     return r.returncode, r.stdout
@@ -35,4 +36,12 @@ miss = 0
 for name, pid, rc, info in res:
     print("%-8s %s exit=%s %s" % (name, pid, rc, info))
     if rc != 1: miss += 1
+    if WRITE:
+        mp = os.path.join(VERIF, "seeded", name, "meta.json")
+        meta = json.load(open(mp))
+        meta["current_check_exit"] = rc
+        meta["current_rules_fired"] = info
+        if rc == 1 and not meta.get("caught_by"):
+            meta["caught_by"] = "%s-%s (rule added or generalised after the first run missed it)" % (pid, info.split(",")[0])
+        json.dump(meta, open(mp, "w"), indent=1)
 print("missed/broken: %d of %d" % (miss, len(res)))
